@@ -4,7 +4,7 @@ concentration in the requested unit / requested total; every non-solvent amount 
 decreased; capacity respected), requests generated constructively so that feasibility is known."""
 from __future__ import annotations
 
-from .common import shard, run_cases, BASE_ASSUMPTIONS, repo_suite, repo_suite_job
+from .common import under_display_configs, shard, run_cases, BASE_ASSUMPTIONS, repo_suite, repo_suite_job
 
 ID = 'C11'
 LEVEL = 'exploration'
@@ -38,6 +38,9 @@ def required_buckets(tier):
 
 def plan(tier, seed):
     jobs = _plan(tier, seed)
+    # a fraction of the budget under other documented configurations (display units / precisions, storage units with
+    # unequal prefixes)
+    jobs = jobs + under_display_configs(shard('constructive', 40, 2) if tier == 'quick' else shard('constructive', 1000, 8))
     if tier != 'quick' or False:
         jobs = jobs + repo_suite_job()
     return jobs
